@@ -45,15 +45,15 @@ func vc19Ctx(r *lib.Rng) []byte {
 
 func vc19Shares() []int {
 	if lib.Thorough() {
-		return []int{2, 3, 4, 5, 8, 16, 100, 255}
+		return []int{2, 3, 4, 5, 8, 9, 16, 64, 255}
 	}
-	return []int{2, 3, 4, 5}
+	return []int{2, 3, 4, 5, 9} // 9: first count above the table of precomputed inverses (1/shares by inversion)
 }
 
 func vc19BatchLen(r *lib.Rng, shares int) int {
 	n := 1 + r.Intn(lib.Scale(6, 20))
-	if shares > 16 && n > 3 {
-		n = 3
+	if shares > 16 && n > 2 {
+		n = 2
 	}
 	return n
 }
@@ -62,7 +62,20 @@ func vc19BatchLen(r *lib.Rng, shares int) int {
 // with one batch, and the alteration / dishonest-share runs on edge reports.
 type vc19Case struct {
 	name string
+	n    int
 	run  func(r *lib.Rng)
+}
+
+// vc19Reps: repetitions per instance; the cost of a case grows linearly with
+// the number of aggregators.
+func vc19Reps(n int) int {
+	switch {
+	case n <= 5:
+		return lib.Scale(3, 6)
+	case n <= 16:
+		return lib.Scale(1, 3)
+	}
+	return 1
 }
 
 func vc19Reject(typ string, kv ...any) {
@@ -72,9 +85,9 @@ func vc19Reject(typ string, kv ...any) {
 // ---------------------------------------------------------------- Count
 
 func vc19CountCases() (cs []vc19Case) {
-	for _, n := range vc19Shares() {
-		n := n
-		cs = append(cs, vc19Case{fmt.Sprintf("count/n=%d", n), func(r *lib.Rng) {
+	for k := 0; k < 6*len(vc19Shares()); k++ {
+		n := vc19Shares()[k%len(vc19Shares())]
+		cs = append(cs, vc19Case{fmt.Sprintf("count/n=%d/%d", n, k), n, func(r *lib.Rng) {
 			ctx := vc19Ctx(r)
 			c, err := count.New(uint8(n), ctx)
 			if err != nil {
@@ -101,7 +114,7 @@ func vc19CountCases() (cs []vc19Case) {
 func vc19SumMaxes() []uint64 {
 	ms := []uint64{1, 2, 3, 4, 5, 6, 255, 256, 1337, 65535, 1<<32 - 1, 1 << 32, 1<<32 + 1, 1 << 62, 1<<63 - 2, 1<<63 - 1}
 	if lib.Thorough() {
-		ms = append(ms, 7, 8, 1000, 1<<31 - 1, 1<<33 - 1, 1<<48 + 12345, 1<<61 + 1, 1<<62 - 1, 1<<62 + 1, 3<<61 + 5)
+		ms = append(ms, 7, 8, 1000, 1<<31-1, 1<<33-1, 1<<48+12345, 1<<61+1, 1<<62-1, 1<<62+1, 3<<61+5)
 	}
 	return ms
 }
@@ -131,11 +144,11 @@ func vc19SumCases() (cs []vc19Case) {
 	for _, max := range vc19SumMaxes() {
 		for _, n := range vc19Shares() {
 			max, n := max, n
-			cs = append(cs, vc19Case{fmt.Sprintf("sum/max=%d/n=%d", max, n), func(r *lib.Rng) {
+			cs = append(cs, vc19Case{fmt.Sprintf("sum/max=%d/n=%d", max, n), n, func(r *lib.Rng) {
 				ctx := vc19Ctx(r)
 				s, err := sum.New(uint8(n), max, ctx)
 				if err != nil {
-					vc19Reject("sum", "shares", n, "max", max, "err", err)
+					vc19Reject("sum", "shares", n, "max", fmt.Sprint(max), "err", err)
 					return
 				}
 				in := drv.NewInst[uint64, uint64, fp64.Vec, fp64.Fp](s, drv.SpecSum(max, ctx), vc19Mon)
@@ -170,7 +183,8 @@ func vc19SumCases() (cs []vc19Case) {
 type vc19SV struct{ length, bits, chunk uint }
 
 func vc19SumVecParams() []vc19SV {
-	ps := []vc19SV{{1, 1, 1}, {4, 4, 3}, {3, 16, 7}, {10, 8, 9}, {2, 64, 11}, {1, 64, 1}, {8, 1, 3}, {5, 3, 100}, {6, 2, 12}, {3, 63, 64}}
+	ps := []vc19SV{{1, 1, 1}, {4, 4, 3}, {3, 16, 7}, {10, 8, 9}, {2, 64, 11}, {1, 64, 1}, {8, 1, 3}, {5, 3, 100}, {6, 2, 12}, {3, 63, 64},
+		{33, 2, 1}} // 66 gadget calls: wire polynomials of 128 coefficients, NTT-based multiplication
 	if lib.Thorough() {
 		ps = append(ps, vc19SV{100, 1, 10}, vc19SV{17, 5, 4}, vc19SV{4, 64, 256}, vc19SV{33, 3, 1}, vc19SV{2, 32, 8}, vc19SV{64, 2, 11})
 	}
@@ -213,7 +227,7 @@ func vc19SumVecCases() (cs []vc19Case) {
 			if n > 16 && p.length*p.bits > 128 {
 				continue
 			}
-			cs = append(cs, vc19Case{fmt.Sprintf("sumvec/%v/n=%d", p, n), func(r *lib.Rng) {
+			cs = append(cs, vc19Case{fmt.Sprintf("sumvec/%v/n=%d", p, n), n, func(r *lib.Rng) {
 				ctx := vc19Ctx(r)
 				s, err := sumvec.New(uint8(n), p.length, p.bits, p.chunk, ctx)
 				if err != nil {
@@ -250,7 +264,8 @@ func vc19SumVecCases() (cs []vc19Case) {
 type vc19H struct{ length, chunk uint }
 
 func vc19HistParams() []vc19H {
-	ps := []vc19H{{1, 1}, {2, 1}, {4, 3}, {4, 2}, {11, 3}, {100, 10}, {7, 7}, {5, 64}, {16, 4}}
+	ps := []vc19H{{1, 1}, {2, 1}, {4, 3}, {4, 2}, {11, 3}, {100, 10}, {7, 7}, {5, 64}, {16, 4},
+		{70, 1}} // 70 gadget calls: NTT-based polynomial multiplication
 	if lib.Thorough() {
 		ps = append(ps, vc19H{3, 2}, vc19H{64, 8}, vc19H{65, 8}, vc19H{255, 16}, vc19H{256, 1}, vc19H{1000, 32})
 	}
@@ -274,7 +289,7 @@ func vc19HistCases() (cs []vc19Case) {
 			if n > 16 && p.length > 128 {
 				continue
 			}
-			cs = append(cs, vc19Case{fmt.Sprintf("histogram/%v/n=%d", p, n), func(r *lib.Rng) {
+			cs = append(cs, vc19Case{fmt.Sprintf("histogram/%v/n=%d", p, n), n, func(r *lib.Rng) {
 				ctx := vc19Ctx(r)
 				h, err := histogram.New(uint8(n), p.length, p.chunk, ctx)
 				if err != nil {
@@ -301,7 +316,8 @@ func vc19HistCases() (cs []vc19Case) {
 type vc19MH struct{ length, maxw, chunk uint }
 
 func vc19MHParams() []vc19MH {
-	ps := []vc19MH{{1, 1, 1}, {5, 2, 3}, {4, 4, 2}, {4, 2, 2}, {10, 2, 3}, {10, 0, 3}, {8, 7, 4}, {16, 1, 5}, {20, 10, 30}, {4, 4, 1}}
+	ps := []vc19MH{{1, 1, 1}, {5, 2, 3}, {4, 4, 2}, {4, 2, 2}, {10, 2, 3}, {10, 0, 3}, {8, 7, 4}, {16, 1, 5}, {20, 10, 30}, {4, 4, 1},
+		{65, 3, 1}} // 67 gadget calls: NTT-based polynomial multiplication
 	if lib.Thorough() {
 		ps = append(ps, vc19MH{100, 3, 10}, vc19MH{64, 64, 8}, vc19MH{33, 16, 7}, vc19MH{255, 128, 16}, vc19MH{2, 1, 2})
 	}
@@ -348,7 +364,7 @@ func vc19MHCases() (cs []vc19Case) {
 			if n > 16 && p.length > 128 {
 				continue
 			}
-			cs = append(cs, vc19Case{fmt.Sprintf("mhcv/%v/n=%d", p, n), func(r *lib.Rng) {
+			cs = append(cs, vc19Case{fmt.Sprintf("mhcv/%v/n=%d", p, n), n, func(r *lib.Rng) {
 				ctx := vc19Ctx(r)
 				h, err := mhcv.New(uint8(n), p.length, p.maxw, p.chunk, ctx)
 				if err != nil {
@@ -416,13 +432,123 @@ func TestVerifC19Prio3(t *testing.T) {
 	cases = append(cases, vc19SumVecCases()...)
 	cases = append(cases, vc19HistCases()...)
 	cases = append(cases, vc19MHCases()...)
-	reps := lib.Scale(2, 4)
-	lib.Par(len(cases)*reps, func(i int) {
-		c := cases[i/reps]
-		c.run(lib.NewRng("c19/"+c.name, i%reps))
+	type job struct{ c, k int }
+	var jobs []job
+	big := 0
+	for i, c := range cases {
+		if c.n > 16 {
+			// 64 and 255 aggregators: every third parameter set
+			if big++; big%3 != 0 {
+				continue
+			}
+		}
+		for k := 0; k < vc19Reps(c.n); k++ {
+			jobs = append(jobs, job{i, k})
+		}
+	}
+	lib.Par(len(jobs), func(i int) {
+		c := cases[jobs[i].c]
+		c.run(lib.NewRng("c19/"+c.name, jobs[i].k))
 		lib.Count("instances")
+		lib.Count(fmt.Sprintf("instances:aggregators=%d", c.n))
 	})
-	lib.Sample(vc19Mon, lib.D("instances", len(cases), "repetitions", reps, "first", cases[0].name, "last", cases[len(cases)-1].name))
+	lib.Sample(vc19Mon, lib.D("instances", len(cases), "runs", len(jobs), "first", cases[0].name, "last", cases[len(cases)-1].name))
+}
+
+// TestVerifC19BitSweep: every single-bit alteration of every message of one
+// report, for small instances of each type.
+func TestVerifC19BitSweep(t *testing.T) {
+	lib.Mandatory("sweep:input-share-leader", "sweep:input-share-helper", "sweep:public-share-one-aggregator",
+		"sweep:public-share-all-aggregators", "sweep:nonce-one-aggregator", "sweep:nonce-all-aggregators",
+		"sweep:prep-message-one-aggregator", "sweep:prep-message-all-aggregators")
+	shares := []int{2, 3}
+	if lib.Thorough() {
+		shares = []int{2, 3, 4, 7}
+	}
+	var jobs []func()
+	ctx := []byte("c19 sweep")
+	for _, n := range shares {
+		n := n
+		jobs = append(jobs, func() {
+			r := lib.NewRng("c19/sweep/count", n)
+			c, err := count.New(uint8(n), ctx)
+			if err != nil {
+				return
+			}
+			in := drv.NewInst[bool, uint64, fp64.Vec, fp64.Fp](c, drv.SpecCount(ctx), "TestVerifC19BitSweep")
+			in.BitSweep(r, false)
+			in.BitSweep(r, true)
+		})
+		sumMax := []uint64{1, 3, 5}
+		if lib.Thorough() {
+			sumMax = append(sumMax, 255, 1<<63-1)
+		}
+		for _, max := range sumMax {
+			max := max
+			jobs = append(jobs, func() {
+				r := lib.NewRng(fmt.Sprintf("c19/sweep/sum/%d", max), n)
+				s, err := sum.New(uint8(n), max, ctx)
+				if err != nil {
+					return
+				}
+				in := drv.NewInst[uint64, uint64, fp64.Vec, fp64.Fp](s, drv.SpecSum(max, ctx), "TestVerifC19BitSweep")
+				in.BitSweep(r, 0)
+				in.BitSweep(r, max)
+			})
+		}
+		svs := []vc19SV{{1, 1, 1}, {2, 2, 2}}
+		if lib.Thorough() {
+			svs = append(svs, vc19SV{3, 4, 3}, vc19SV{1, 64, 8})
+		}
+		for _, p := range svs {
+			p := p
+			jobs = append(jobs, func() {
+				r := lib.NewRng(fmt.Sprintf("c19/sweep/sumvec/%v", p), n)
+				s, err := sumvec.New(uint8(n), p.length, p.bits, p.chunk, ctx)
+				if err != nil {
+					return
+				}
+				in := drv.NewInst[[]uint64, []uint64, fp128.Vec, fp128.Fp](s, drv.SpecSumVec(p.length, p.bits, p.chunk, ctx), "TestVerifC19BitSweep")
+				in.BitSweep(r, make([]uint64, p.length)) // all-zero: the proof does not depend on the joint randomness
+				in.BitSweep(r, vc19SumVecMeas(r, p))
+			})
+		}
+		hs := []vc19H{{1, 1}, {3, 2}}
+		if lib.Thorough() {
+			hs = append(hs, vc19H{8, 3})
+		}
+		for _, p := range hs {
+			p := p
+			jobs = append(jobs, func() {
+				r := lib.NewRng(fmt.Sprintf("c19/sweep/histogram/%v", p), n)
+				h, err := histogram.New(uint8(n), p.length, p.chunk, ctx)
+				if err != nil {
+					return
+				}
+				in := drv.NewInst[uint64, []uint64, fp128.Vec, fp128.Fp](h, drv.SpecHistogram(p.length, p.chunk, ctx), "TestVerifC19BitSweep")
+				in.BitSweep(r, 0)
+				in.BitSweep(r, uint64(p.length-1))
+			})
+		}
+		mhs := []vc19MH{{1, 1, 1}, {3, 2, 2}}
+		if lib.Thorough() {
+			mhs = append(mhs, vc19MH{6, 3, 4})
+		}
+		for _, p := range mhs {
+			p := p
+			jobs = append(jobs, func() {
+				r := lib.NewRng(fmt.Sprintf("c19/sweep/mhcv/%v", p), n)
+				h, err := mhcv.New(uint8(n), p.length, p.maxw, p.chunk, ctx)
+				if err != nil {
+					return
+				}
+				in := drv.NewInst[[]bool, []uint64, fp128.Vec, fp128.Fp](h, drv.SpecMHCV(p.length, p.maxw, p.chunk, ctx), "TestVerifC19BitSweep")
+				in.BitSweep(r, vc19MHMeas(r, p, 0))
+				in.BitSweep(r, vc19MHMeas(r, p, 1))
+			})
+		}
+	}
+	lib.Par(len(jobs), func(i int) { jobs[i]() })
 }
 
 // ---------------------------------------------------------------- reference self-check and known answers
